@@ -415,12 +415,19 @@ type C15Case struct {
 
 func genC15(g *G, n int, out io.Writer) {
 	enc := json.NewEncoder(out)
-	maxBranches = 16
+	maxBranches = 48
 	for i := 0; i < n; i++ {
 		customSteps = i%3 == 1
-		base := genC01Graph(g, i, g.coin(0.6))
-		if customSteps {
-			base.Graph = g.graphA(3+g.n(5), 0.5, true)
+		var base C01Case
+		if i%2 == 0 {
+			// propositional skeleton over classical atoms, whole truth table (deeper and wider formulas)
+			base = genC01TruthTable(g, i)
+			customSteps = false
+		} else {
+			base = genC01Graph(g, i, g.coin(0.6))
+			if customSteps {
+				base.Graph = g.graphA(3+g.n(5), 0.5, true)
+			}
 		}
 		base.Op = "c15"
 		base.Stream = "graphcount"
